@@ -21,7 +21,7 @@ META = {
     ],
     "floors": {
         "quick": {"time_triples_compared": 20000, "implicit_links": 5000, "explicit_JOINED_END": 200, "explicit_JOINED_START": 200,
-                  "eq_multi": 200, "unrolled_programs": 1000, "registry_reassignments": 800},
+                  "eq_multi": 200, "unrolled_programs": 1000, "registry_reassignments": 800, "unrolled_then_nested": 3000},
         "thorough": {"time_triples_compared": 200000, "implicit_links": 50000, "explicit_JOINED_END": 2000, "eq_multi": 2000},
     },
 }
@@ -70,6 +70,14 @@ def check_program(prog: Dict[str, Any], acc: Acc):
         else:
             info2 = common.compare_times(built2, acc, "unrolled", unrolled_model, case, circuit=modified)
             common.local_equations(info2["ops"], info2["raw"], acc, case, "unrolled")
+            # "the same equations hold through nesting and after repetitions are unrolled": the unrolled circuit nested (copied)
+            # into an empty circuit still reports the same schedule
+            if info2["ok"] and len(info2["ops"]) <= 200:
+                from qce_circuit.language.declarative_circuit import DeclarativeCircuit
+                outer = DeclarativeCircuit()
+                outer.add(modified)
+                acc.count("unrolled_then_nested")
+                common.compare_times(built2, acc, "unrolled-nested", unrolled_model, case, circuit=outer)
     memo = memo_shadow.drain()
     acc.count("memo_queries", memo["queries"])
     acc.count("memo_outermost_compared", memo["outermost"])
